@@ -472,7 +472,7 @@ func (r *RectClip64) checkEdges() {
 
 		r.results[i] = op2
 
-		edgeSet1 := getEdgesForPt(op.pt, r.rect)
+		edgeSet1 := getEdgesForPt(op.prev.pt, r.rect)
 		op2 = op
 
 		for {
